@@ -1000,6 +1000,22 @@ impl GmWorld {
                 match reg.get_slice(ra, cnt) {
                     Ok(s) => {
                         let p = s.ptr_guard().as_ptr() as usize;
+                        // C17: a guard reports the bytes its accessor covers — for the slice and for accessors derived from
+                        // it at offsets that are not page aligned (on-demand Xen regions map a window per guard)
+                        {
+                            use vm_memory::VolatileMemory as _;
+                            let mut lens: Vec<(&str, usize, usize)> = vec![("slice", s.ptr_guard().len(), cnt), ("slice-mut", s.ptr_guard_mut().len(), cnt)];
+                            if cnt >= 6 {
+                                if let Ok(x) = s.subslice(1, cnt - 1) { lens.push(("subslice", x.ptr_guard().len(), cnt - 1)); }
+                                if let Ok(x) = s.get_ref::<u32>(1) { lens.push(("ref", x.ptr_guard().len(), 4)); }
+                                if let Ok(x) = s.get_array_ref::<u16>(1, 2) { lens.push(("array", x.ptr_guard_mut().len(), 4)); }
+                            }
+                            for (what, got, want) in lens {
+                                if got != want {
+                                    rec.fail("C17", &format!("gr.slice/guard-len/{}", what), &format!("{} guard reports {} bytes, accessor covers {}", line, got, want));
+                                }
+                            }
+                        }
                         if self.is_ondemand(rid) {
                             if !fits || (cnt > 0 && p % 4096 != (inf.start as usize + a as usize) % 4096) || s.len() != cnt {
                                 rec.fail("C01", "gr.slice/outside-parent", line);
